@@ -49,6 +49,7 @@ type c14Log struct {
 	// an insert / replace executed through the cursor of a node that Delete was already called on,
 	// in the same callback or in the post callback of the same visit (the recorded finding)
 	opAfterDelete bool
+	afterDelete   map[string]bool // which operations followed a Delete on the same element
 	deleted       map[interface{}]bool
 }
 
@@ -125,11 +126,6 @@ func c14RunDst(in c14Input, f *dst.File) (res dst.Node, lg *c14Log, pm string) {
 	mk := func(phase string, steps map[string]c14Step) dstutil.ApplyFunc {
 		return func(c *dstutil.Cursor) bool {
 			n := c.Node()
-			if n == nil && c.Name() == "TypeParams" {
-				// x/tools v0.1.12 reaches type parameters through its pre-1.18 typeparams shim and
-				// skips a nil list; current astutil calls apply unconditionally, as dstutil does
-				return true
-			}
 			j := counter
 			counter++
 			lg.entries = append(lg.entries, fmt.Sprintf("%s %s %s %d %s", phase, kindOf(n), c.Name(), c.Index(), kindOf(c.Parent())))
@@ -181,6 +177,10 @@ func c14RunDst(in c14Input, f *dst.File) (res dst.Node, lg *c14Log, pm string) {
 					}
 					if lg.deleted[n] {
 						lg.opAfterDelete = true
+						if lg.afterDelete == nil {
+							lg.afterDelete = map[string]bool{}
+						}
+						lg.afterDelete[op] = true
 					}
 					switch op {
 					case "replace":
@@ -281,6 +281,21 @@ func c14RunAst(in c14Input, f *ast.File) (res ast.Node, entries []string, pm str
 	pm = safely(func() { res = astutil.Apply(root, pre, post) })
 	resultIsRepl = rootRepl != nil && res == rootRepl
 	return
+}
+
+// the recorded findings about cursor edits on an element that Delete was already called on in the
+// same visit, by the kind of the later edit
+func afterDeleteKey(in c14Input, lg *c14Log) string {
+	if lg.afterDelete["delete"] {
+		return "delete-twice-same-visit"
+	}
+	if lg.afterDelete["replace"] {
+		return "delete-then-replace-same-visit"
+	}
+	if hasInsertAfterDelete(in) || lg.opAfterDelete {
+		return "delete-then-insert-same-visit"
+	}
+	return ""
 }
 
 func hasInsertAfterDelete(in c14Input) bool {
@@ -400,8 +415,8 @@ func c14Check(in c14Input) (key, what string) {
 		for n := range lg.created {
 			if lg.visited[n] > 0 {
 				k := "c14-visit-inserted"
-				if hasInsertAfterDelete(in) || lg.opAfterDelete {
-					k = "delete-then-insert-same-visit"
+				if ak := afterDeleteKey(in, lg); ak != "" {
+					k = ak
 				}
 				return k, fmt.Sprintf("an inserted / replacement %s node was visited", kindOf(n))
 			}
@@ -412,8 +427,8 @@ func c14Check(in c14Input) (key, what string) {
 			for _, n := range fin {
 				if orig[n] && lg.visited[n] != 1 && !underCreated(dfile, n, lg.created) {
 					k := "c14-visit-once"
-					if hasInsertAfterDelete(in) || lg.opAfterDelete {
-						k = "delete-then-insert-same-visit"
+					if ak := afterDeleteKey(in, lg); ak != "" {
+						k = ak
 					}
 					return k, fmt.Sprintf("a surviving original %s node was visited %d times", kindOf(n), lg.visited[n])
 				}
@@ -521,6 +536,18 @@ func c14Prop(c *Ctx) {
 	c.Res.Evaluations++
 	if key, what := c14Check(kin); key != "" {
 		c.Res.fail(key, what, kin)
+	}
+	// the other recorded edits after Delete on the same element: Replace, and Delete again
+	for _, ops := range [][]string{{"delete", "replace"}, {"delete", "delete"}} {
+		k2 := c14Input{Src: kin.Src, Pre: map[string]c14Step{}, Post: map[string]c14Step{}}
+		for i, st := range kin.Pre {
+			_ = st
+			k2.Pre[i] = c14Step{Ops: ops, Return: true}
+		}
+		c.Res.Evaluations++
+		if key, what := c14Check(k2); key != "" {
+			c.Res.fail(key, what, k2)
+		}
 	}
 }
 
